@@ -40,8 +40,17 @@ class Exec:
         self.global_store: Dict[Tuple[str, str], Term] = {}
         self.registered = registered
         self.notes: List[str] = []
+        self.type_hints: Dict[int, Any] = {}
+        self.replaced_bases: set = set()
         if registered:
             self._bind_registry()
+            for t in self.global_overrides.values():
+                if t.op == "class":
+                    rc = self.prog.classes.get(t.args[0])
+                    if rc is not None:
+                        for b in rc.mro()[1:]:
+                            if isinstance(b, ClassInfo):
+                                self.replaced_bases.add(b.qualname)
         from . import models
 
         self.models = models
@@ -289,6 +298,9 @@ class Exec:
                 o.kv = {k: (oa.kv[k] if oa.kv[k] is ob.kv[k] else mk("phi", cond, oa.kv[k], ob.kv[k])) for k in oa.kv}
             else:
                 o.exact = False
+                sa = set(oa.kv.keys()) if oa.exact else (oa.sure or set())
+                sb = set(ob.kv.keys()) if ob.exact else (ob.sure or set())
+                o.sure = sa & sb
                 ws = []
                 for src in (oa, ob):
                     for k, v in src.kv.items():
